@@ -1,6 +1,8 @@
 /- Property C15: the property theorems (and nothing else). -/
 import Frugal.Proofs.DepthProps
 import Frugal.Proofs.DecodeRefine
+import Frugal.Proofs.DepthBound
+import Frugal.Proofs.DecodeSafe
 import Frugal.Props.Instances
 namespace Frugal.C15
 open Frugal
@@ -23,6 +25,37 @@ theorem shallow_always_accepted (S : Schema) (hS : S.ok = true) (sid : Nat) (fs 
   have hv := Instances.valid_depth
   simp only [Params.validDepth, Bool.and_eq_true, decide_eq_true_eq] at hv
   exact shallow_accepted _ S sid fs trailing.length dest hd hv.1 (skipDepth_eq Instances.params_valid)
+
+/-- the other direction: whatever `DecodeObject` accepts is nested at most 1023 levels along the
+    positions its schema recognises (`knownDepth`: one per struct / list / set / map reached through
+    known fields with their declared wire type, elements, keys and values — whatever the mixture);
+    induction over the reader (Proofs/DepthBound.lean), then C03 -/
+theorem accepted_is_within_bound (S : Schema) (hS : S.ok = true) (sid : Nat) (fs : List (Nat × TVal))
+    (trailing : Bytes) (dest w : Val) (n : Nat) (hw : wfFields fs = true)
+    (h : decodeM Generated.params S sid (ser (.strct fs) ++ trailing) dest = .ok (w, n)) :
+    knownDepth S (.strct sid) (.strct fs) ≤ 1023 := by
+  rw [decodeM_refines Instances.params_valid S hS sid fs trailing _ hw] at h
+  obtain ⟨w0, h0, _⟩ := mapv_ok_inv _ _ _ h
+  have := readMessage_depth Generated.params S sid fs trailing.length dest w0 h0
+  have hm : Generated.params.maxDepth = 1023 := rfl
+  omega
+
+/-- … so a well-formed message nested more deeply than that on a recognised path is rejected with an
+    error, however long it is: never accepted (above), never a panic (C05), and the recursion is on
+    the budget (`zero_budget_*`), not on the input.  **Partial**: that the error is the depth-limit
+    error (rather than an error met earlier in the message) is not stated. -/
+theorem deeper_known_nesting_is_an_error (S : Schema) (hS : S.ok = true) (sid : Nat)
+    (fs : List (Nat × TVal)) (trailing : Bytes) (dest : Val) (hw : wfFields fs = true)
+    (hdeep : knownDepth S (.strct sid) (.strct fs) > 1023) :
+    ∃ e, decodeM Generated.params S sid (ser (.strct fs) ++ trailing) dest = .err e := by
+  have hp := decodeM_safe Instances.params_valid S sid (ser (.strct fs) ++ trailing) dest
+  cases hres : decodeM Generated.params S sid (ser (.strct fs) ++ trailing) dest with
+  | ok p =>
+    obtain ⟨w, n⟩ := p
+    have := accepted_is_within_bound S hS sid fs trailing dest w n hw hres
+    omega
+  | err e => exact ⟨e, rfl⟩
+  | panic p => rw [hres] at hp; cases hp
 
 /-- skipped (unknown) data deeper than the skipper's own limit is a depth error, not a crash -/
 theorem deep_unknown_is_depth_error (v : TVal) (r : Bytes) (hw : wf v = true)
